@@ -540,11 +540,11 @@ impl Ctx<'_> {
     /// a violation, also tallied per signature (the report keeps only a few witnesses)
     fn violation(&self, signature: &str, witness: Json) {
         self.rep.count(&format!("violations/{signature}"), 1);
-        // the report keeps 25 witnesses in total: forward two per signature so that every kind is shown
+        // the report keeps 25 witnesses in total: forward one per signature so that every kind is shown (tallies are in the counters)
         let mut g = self.forwarded.lock().unwrap_or_else(|e| e.into_inner());
         let n = g.entry(signature.to_string()).or_insert(0);
         *n += 1;
-        if *n <= 2 {
+        if *n <= 1 {
             self.rep.violation(signature, witness);
         }
     }
@@ -1181,7 +1181,7 @@ fn run_unary(cx: &Ctx, loc: &mut Local, a: &Prep) {
                 let ok = match (bounded, got) {
                     (false, g) => g.is_none(),
                     (true, Some(n)) => n as u128 == expect,
-                    (true, None) => expect > u64::MAX as u128 || true, // None is also allowed for "not implemented"
+                    (true, None) => true, // None is documented for overflow and for "not implemented"
                 };
                 if !ok {
                     cx.violation(
@@ -1618,33 +1618,29 @@ fn random_interval(ty: Ty, rng: &mut Rng) -> Iv {
 }
 
 fn part_a(cx: &Ctx, args: &Args) {
-    let reduce: u64 = match cx.stage {
-        1 => 100,
-        2 => 10,
-        _ => 1,
-    };
     let tys: Vec<Ty> = ALL_TYS.to_vec();
     let grids = build_grids(cx, &tys);
-    // wide grids: thin the J axis systematically in the quick tier (stride 1 = full cross product)
-    let stride_wide = args.bound("grid_stride", 2, 1).max(1) as usize * if reduce > 1 { reduce as usize / 2 } else { 1 };
-    let stride_8bit = if reduce > 1 { reduce as usize / 4 } else { 1 };
-    let nullable_stride = args.bound("nullable_stride", 6, 2).max(1) as usize * reduce as usize;
-    let random_triples = args.bound("triples", 60_000, 20_000_000) / reduce;
-
+    // native tiers: full cross product (grid_stride 1). Reduced stages thin rows (I) and columns (J)
+    // systematically; the Miri interpreter is ~10^4 times slower than native code.
+    let (row_step_8bit, row_step_wide, stride_8bit, stride_wide, nullable_stride, random_triples): (usize, usize, usize, usize, usize, u64) = match cx.stage {
+        0 => (1, 1, 1, args.bound("grid_stride", 1, 1).max(1) as usize, args.bound("nullable_stride", 6, 2).max(1) as usize, args.bound("triples", 300_000, 100_000_000)),
+        1 => (6, 12, 12, 59, 400, args.bound("triples", 300_000, 100_000_000) / 1000),
+        _ => (1, 1, 3, 5, 60, args.bound("triples", 300_000, 100_000_000) / 10),
+    };
     let mut items: Vec<ItemA> = vec![];
     for ty in [Ty::I8, Ty::U8] {
-        for i in 0..grids.by_ty[&ty].len() {
+        for i in (0..grids.by_ty[&ty].len()).step_by(row_step_8bit) {
             items.push(ItemA::Row { ty, i });
         }
     }
     items.push(ItemA::Boolean);
     for ty in [Ty::I32, Ty::I64, Ty::U64, Ty::F32, Ty::F64] {
-        for i in 0..grids.by_ty[&ty].len() {
+        for i in (0..grids.by_ty[&ty].len()).step_by(row_step_wide) {
             items.push(ItemA::Row { ty, i });
         }
     }
     for ty in [Ty::I8, Ty::I32] {
-        for i in 0..grids.by_ty[&ty].len() {
+        for i in (0..grids.by_ty[&ty].len()).step_by(row_step_wide) {
             items.push(ItemA::NullableRow { ty, i });
         }
     }
@@ -1713,7 +1709,7 @@ fn part_a(cx: &Ctx, args: &Args) {
         }
         loc.flush(cx.rep);
     });
-    cx.rep.extra("exhaustive_8bit_grid", json!(all_8bit_exhaustive.load(Ordering::Relaxed) == 1 && reduce == 1));
+    cx.rep.extra("exhaustive_8bit_grid", json!(all_8bit_exhaustive.load(Ordering::Relaxed) == 1 && cx.stage == 0));
     cx.rep.extra(
         "grid_sizes",
         json!(grids.by_ty.iter().map(|(t, g)| (t.name().to_string(), json!({"intervals": g.len(), "endpoints": endpoint_grid(*t).iter().map(|v| v.show()).collect::<Vec<_>>()}))).collect::<BTreeMap<_, _>>()),
@@ -1888,7 +1884,7 @@ impl E {
         }
     }
     /// features used to key a violation signature by the kind of construct involved
-    fn features(&self, int_div: &mut bool, int_mul: &mut bool, f2i: &mut bool) {
+    fn features(&self, int_div: &mut bool, int_mul: &mut bool, f2i: &mut bool, farith: &mut bool) {
         match &self.k {
             K::Bin(a, op, b) => {
                 if *op == BOp::Divide && self.t.is_int() {
@@ -1898,15 +1894,19 @@ impl E {
                 if *op == BOp::Multiply && self.t.is_int() {
                     *int_mul = true;
                 }
-                a.features(int_div, int_mul, f2i);
-                b.features(int_div, int_mul, f2i);
+                // inverse propagation through rounded float arithmetic (1-ulp effects)
+                if matches!(op, BOp::Plus | BOp::Minus | BOp::Multiply | BOp::Divide) && self.t == BT::F64 {
+                    *farith = true;
+                }
+                a.features(int_div, int_mul, f2i, farith);
+                b.features(int_div, int_mul, f2i, farith);
             }
-            K::Neg(a) => a.features(int_div, int_mul, f2i),
+            K::Neg(a) => a.features(int_div, int_mul, f2i, farith),
             K::Cast(a) => {
                 if a.t == BT::F64 && self.t.is_int() {
                     *f2i = true;
                 }
-                a.features(int_div, int_mul, f2i);
+                a.features(int_div, int_mul, f2i, farith);
             }
             _ => {}
         }
@@ -2214,9 +2214,9 @@ fn run_graph(cx: &Ctx, loc: &mut Local, case: &GraphCase, rng: &mut Rng, sat_row
     let text = case.e.show();
     let ranges_text: Vec<String> = case.ranges.iter().map(|(c, r)| format!("{} in [{}, {}]", COLS[*c].0, r.0.map(|v| v.show()).unwrap_or("-inf".into()), r.1.map(|v| v.show()).unwrap_or("+inf".into()))).collect();
     let fp = fp_str(&format!("{text} | {ranges_text:?}"));
-    let (mut int_div, mut int_mul, mut f2i) = (false, false, false);
-    case.e.features(&mut int_div, &mut int_mul, &mut f2i);
-    let feature = if int_div { "int-divide" } else if int_mul { "int-multiply" } else if f2i { "cast-float-to-int" } else { "other" };
+    let (mut int_div, mut int_mul, mut f2i, mut farith) = (false, false, false, false);
+    case.e.features(&mut int_div, &mut int_mul, &mut f2i, &mut farith);
+    let feature = if int_div { "int-divide" } else if int_mul { "int-multiply" } else if f2i { "cast-float-to-int" } else if farith { "float-arith" } else { "other" };
     let witness = |extra: Json| json!({"part": "B", "expr": text, "ranges": ranges_text, "detail": extra});
 
     let schema = Schema::new(COLS.iter().map(|(n, t)| Field::new(*n, t.dt(), true)).collect::<Vec<_>>());
@@ -2422,7 +2422,7 @@ fn run_graph(cx: &Ctx, loc: &mut Local, case: &GraphCase, rng: &mut Rng, sat_row
 fn part_b(cx: &Ctx, args: &Args) -> (u64, u64) {
     let sat_rows = AtomicU64::new(0);
     let shrunk = AtomicU64::new(0);
-    let n_random = args.bound("graphs", 3000, 300_000);
+    let n_random = args.bound("graphs", 4000, 300_000);
     let sys = systematic_cases();
     let n_sys = sys.len() as u64;
     enum ItemB {
